@@ -189,7 +189,8 @@ PENDING = "check not built yet in this round; the design in DESIGN.md section 5 
 NOT_APPLICABLE = {("C%02d" % i): PENDING for i in range(1, 29)}
 
 _SCHED_NOTE = ("Trusted base: the token scheduler and pthread interposers in rt/vsched.cpp, the instrumented atomics header, the linearizability checker rt/lin.h (self-tested), "
-               "ASan/UBSan, rapidcheck, libFuzzer. Assumes sequentially consistent interleavings at atomic-operation granularity; bounded threads/operations/pre-emptions.")
+               "ASan/UBSan, rapidcheck, libFuzzer. Assumes sequentially consistent interleavings at atomic-operation granularity; bounded threads/operations/pre-emptions. "
+               "In the container harnesses the hazard-pointer collection loop of an HP/DHP scan() is one scheduler step (excludes the open hazard-copy finding by construction); the SMR harness of C01-C03 keeps it pre-emptible.")
 
 _SMR_TEXT = ("Bounded exploration of generated client programs (protect/assign/copy/deref/release, swap+retire, bulk retire around the array capacity, explicit scan, detach/re-attach, "
              "GuardArray, DHP guard-block extension) x generated schedules against harness bookkeeping of validated guards and per-object disposer accounting; held on every case explored.")
